@@ -606,6 +606,11 @@ func genUDOpts(t *rapid.T, targets []FaRec, width int) udOpts {
 var hugeRows bool
 
 func genUDInput(t *rapid.T, minQueries int, iupacRef bool) (ref string, queries, targets []FaRec) {
+	// names as they occur: plain, database style with separators, or starting with a character that means something in other
+	// file formats ('#'); never a comma, white space, double quote or semicolon (the list format has no escaping and topranking joins names with ";")
+	namePrefixes := []string{"", "", "", "#", "hCoV-19/x/", "EPI_ISL|", "'"}
+	qPrefix := rapid.SampledFrom(namePrefixes).Draw(t, "queryNamePrefix")
+	tPrefix := rapid.SampledFrom(namePrefixes).Draw(t, "targetNamePrefix")
 	w := rapid.IntRange(6, 30).Draw(t, "width")
 	wide := rapid.IntRange(0, 7).Draw(t, "wide") == 0
 	if wide {
@@ -635,7 +640,7 @@ func genUDInput(t *rapid.T, minQueries int, iupacRef bool) (ref string, queries,
 	}
 	nq := rapid.IntRange(minQueries, 3).Draw(t, "nq")
 	for i := 0; i < nq; i++ {
-		queries = append(queries, FaRec{ID: fmt.Sprintf("q%d", i), Seq: genUDSeq(t, ref, pool, "")})
+		queries = append(queries, FaRec{ID: fmt.Sprintf("%sq%d", qPrefix, i), Seq: genUDSeq(t, ref, pool, "")})
 	}
 	nt := rapid.IntRange(1, 20).Draw(t, "nt")
 	if w > 10000 {
@@ -674,7 +679,7 @@ func genUDInput(t *rapid.T, minQueries int, iupacRef bool) (ref string, queries,
 			}
 			seq = string(b)
 		}
-		targets = append(targets, FaRec{ID: fmt.Sprintf("t%d", i), Seq: seq})
+		targets = append(targets, FaRec{ID: fmt.Sprintf("%st%d", tPrefix, i), Seq: seq})
 	}
 	if wide {
 		// many short ambiguity tracts (every 2nd / 3rd column) in some sequences, with SNPs of the others
